@@ -81,6 +81,11 @@ MUTANTS: dict[str, dict[str, list[tuple[str, str, str]]]] = {
                            'temp = path\n        if False:')],
     },
     'C04': {
+        'unreadable-state-counts-as-no-state': [('forml/provider/registry/filesystem/posix.py',
+                                                 """        except FileNotFoundError:
+            LOGGER.warning('No state %s under %s', sid, path)""",
+                                                 """        except OSError:
+            LOGGER.warning('No state %s under %s', sid, path)""")],
         'package-installed-in-place-again': [('forml/project/_distribution.py', """                aside = pathlib.Path(temp) / path.name
 """, """                aside = path
 """)],
